@@ -15,12 +15,23 @@ import (
 // C19: the proxy relays both directions byte-for-byte and reports traffic safely.
 
 type ProxyHooks struct {
-	Setup       func(logDir string)
-	Handle      func(server, client net.Conn)
 	Status      func() []byte
 	EmptyStatus func() []byte
 	QueueRaw    func() [][]byte
 	QueueCap    int
+	// Reset puts the program's package variables back to their declared values (a run is a process)
+	Reset func()
+	// Listener, when the build could provide it, runs the program's real start()
+	// over the simulated network (proxy_listen.go)
+	Listener *ProxyStartHooks
+	// Direct, when the build could provide it, lets the harness do start()'s wiring
+	// and run the real handleMessages over one pair of simulated connections
+	Direct *ProxyDirectHooks
+}
+
+type ProxyDirectHooks struct {
+	Setup  func(logDir string)
+	Handle func(server, client net.Conn)
 }
 
 var markup = [][]byte{[]byte("<script>alert(1)</script>"), []byte("<b>"), []byte("</div>"), []byte("<"), []byte(">"), []byte("<img src=x onerror=y>")}
@@ -82,6 +93,21 @@ func C19(h ProxyHooks) func(*hx.Ctx) *hx.Outcome {
 	return func(c *hx.Ctx) *hx.Outcome {
 		o := &hx.Outcome{}
 		t := c.T
+		// half of the runs go through the program's own start(): accept loop, one
+		// upstream call per client, several connections through one proxy; the other
+		// half wire one session by hand (whichever of the two the build could provide)
+		listener := h.Listener != nil && h.Listener.NetSeam
+		if !listener && h.Direct == nil {
+			o.Infra = "neither the listener-mode nor the direct-mode harness of the proxy fits this program (no verdict)"
+			return o
+		}
+		if pick := t.SBool(1, 2); listener && (pick || h.Direct == nil) {
+			return c19Listener(c, o, h)
+		}
+		if h.Direct == nil {
+			return c19Listener(c, o, h)
+		}
+		o.Probe("direct-mode")
 		up := proxyTraffic(c, o, "client")   // client -> caster
 		down := proxyTraffic(c, o, "caster") // caster -> client
 		if t.SBool(1, 4) {
@@ -148,7 +174,10 @@ func C19(h ProxyHooks) func(*hx.Ctx) *hx.Outcome {
 		preStart := nearMidnight(t, o, s)
 		verdict := s.Run(func() {
 			preStart()
-			h.Setup(c.TempDir())
+			if h.Reset != nil {
+				h.Reset()
+			}
+			h.Direct.Setup(c.TempDir())
 			empty = angle(h.EmptyStatus())
 			// each peer reads and writes concurrently, as a TCP application must
 			// (two peers that both write everything before reading deadlock on
@@ -224,7 +253,7 @@ func C19(h ProxyHooks) func(*hx.Ctx) *hx.Outcome {
 					}
 				})
 			}
-			h.Handle(proxyServer, proxyClient)
+			h.Direct.Handle(proxyServer, proxyClient)
 			handled = true
 		})
 		o.Verdict, o.Strategy = verdict, rt.StratNames[s.Strategy]
